@@ -10,8 +10,11 @@ class Artifacts:
     Parameters:
       minlen (int) : the minimal length of the components to keep.
     """
-    for cc in filter(lambda c: sum([self.segment(sn).length for sn in c]) \
-                     < minlen, self.connected_components()):
+    # the components are selected before anything is removed, so that nothing
+    # is removed if the length of a segment is not available
+    small = [c for c in self.connected_components() if \
+             sum([self.segment(sn).try_get_length() for sn in c]) < minlen]
+    for cc in small:
       for s in cc:
         self.rm(s)
 
